@@ -1,7 +1,517 @@
-//! C01 operations (op names start with `c01.`)
-#[allow(unused_imports)]
+//! C01 — value correspondence for the leakage model (op names start with `c01.leak.`).
+//!
+//! Each op calls the REAL public function(s) that one `CB.Leak.*` model function stands for and prints the results in
+//! the format of `lean/CB/Driver/C01.lean` (which prints `L1 ;; L0`: leak-model value ;; plain specification).
+//! Limb counts, shift amounts, bit indices: decimal.  Values: hex.  Signed values: hex of the two's complement limbs.
 use crate::util::*;
+use crypto_bigint::modular::{MontyForm, MontyParams};
+use crypto_bigint::subtle::{
+    Choice, ConditionallyNegatable, ConditionallySelectable, ConstantTimeEq, ConstantTimeGreater, ConstantTimeLess,
+    CtOption,
+};
+use crypto_bigint::verif_hooks as hooks;
+use crypto_bigint::{
+    BitOps, BoxedUint, CheckedMul, CheckedSub, ConstCtOption, ConstantTimeSelect, Int, Limb, NonZero, Odd,
+    Uint, Word, Zero,
+};
+use std::cmp::Ordering;
 
-pub fn dispatch(_op: &str, _a: &[&str]) -> Option<String> {
-    None
+fn co<const N: usize>(o: ConstCtOption<Uint<N>>) -> String {
+    let o: Option<Uint<N>> = o.into();
+    o.map(|v| uhex(&v)).unwrap_or("none".into())
+}
+fn coi<const N: usize>(o: ConstCtOption<Int<N>>) -> String {
+    let o: Option<Int<N>> = o.into();
+    o.map(|v| ihex(&v)).unwrap_or("none".into())
+}
+fn cto<T>(o: CtOption<T>, f: impl Fn(&T) -> String) -> String {
+    let o: Option<T> = o.into();
+    o.map(|v| f(&v)).unwrap_or("none".into())
+}
+fn ord(o: Ordering) -> &'static str {
+    match o {
+        Ordering::Less => "-1",
+        Ordering::Equal => "0",
+        Ordering::Greater => "1",
+    }
+}
+fn hexw(w: u64) -> String {
+    format!("{w:x}")
+}
+
+/// the widths of the generator: 1,2,3,4,6,8 everywhere, 16 and 32 where Karatsuba starts
+macro_rules! with_w {
+    ($n:expr, $f:ident, $($args:expr),*) => {
+        match $n {
+            1 => $f::<1>($($args),*),
+            2 => $f::<2>($($args),*),
+            3 => $f::<3>($($args),*),
+            4 => $f::<4>($($args),*),
+            6 => $f::<6>($($args),*),
+            8 => $f::<8>($($args),*),
+            16 => $f::<16>($($args),*),
+            32 => $f::<32>($($args),*),
+            _ => Some("unsupported-width".to_string()),
+        }
+    };
+}
+macro_rules! with_small {
+    ($n:expr, $f:ident, $($args:expr),*) => {
+        match $n {
+            1 => $f::<1>($($args),*),
+            2 => $f::<2>($($args),*),
+            3 => $f::<3>($($args),*),
+            4 => $f::<4>($($args),*),
+            6 => $f::<6>($($args),*),
+            8 => $f::<8>($($args),*),
+            _ => Some("unsupported-width".to_string()),
+        }
+    };
+}
+
+fn limb_op(a: &[&str]) -> Option<String> {
+    let (x, y, c, d) = (arg!(limb(a[0])), arg!(limb(a[1])), arg!(limb(a[2])), arg!(limb(a[3])));
+    let sel = Limb::conditional_select(&x, &y, Choice::from((c.0 & 1) as u8));
+    let (s, cy) = x.adc(y, c);
+    let (df, bw) = x.sbb(y, c);
+    let (lo, hi) = x.mac(y, c, d);
+    Some(format!(
+        "{} {} {} {} {} {} {} {} {} {:x}",
+        choice(x.ct_eq(&y)),
+        choice(x.ct_lt(&y)),
+        lhex(sel),
+        lhex(s),
+        lhex(cy),
+        lhex(df),
+        lhex(bw),
+        lhex(lo),
+        lhex(hi),
+        x.bits()
+    ))
+}
+
+fn ucmp<const N: usize>(a: &[&str]) -> Option<String> {
+    let (x, y, c) = (arg!(uint::<N>(a[1])), arg!(uint::<N>(a[2])), arg!(tochoice(a[3])));
+    Some(format!(
+        "{} {} {} {} {} {} {}",
+        uhex(&Uint::conditional_select(&x, &y, c)),
+        choice(!x.is_zero()), // `Uint::is_nonzero` itself is crate-private (reached by neg_mod, saturating_mul)
+        choice(x.ct_eq(&y)),
+        choice(x.ct_lt(&y)),
+        choice(x.ct_gt(&y)),
+        ord(Ord::cmp(&x, &y)),
+        bit(x <= y)
+    ))
+}
+
+fn cmp_vartime<const N: usize>(a: &[&str]) -> Option<String> {
+    let (x, y) = (arg!(uint::<N>(a[1])), arg!(uint::<N>(a[2])));
+    Some(ord(x.cmp_vartime(&y)).to_string())
+}
+
+fn addsub<const N: usize>(a: &[&str]) -> Option<String> {
+    let (x, y, c) = (arg!(uint::<N>(a[1])), arg!(uint::<N>(a[2])), arg!(limb(a[3])));
+    let (s, cy) = x.adc(&y, c);
+    let (d, bw) = x.sbb(&y, c);
+    let (ng, nc) = x.carrying_neg();
+    Some(format!(
+        "{} {} {} {} {} {} {} {} {} {} {} {} {}",
+        uhex(&s),
+        lhex(cy),
+        uhex(&d),
+        lhex(bw),
+        uhex(&ng),
+        cchoice(nc),
+        uhex(&x.wrapping_add(&y)),
+        uhex(&x.wrapping_sub(&y)),
+        uhex(&x.bitand_limb(c)),
+        uhex(&x.not()),
+        uhex(&x.bitxor(&y)),
+        uhex(&x.bitor(&y)),
+        uhex(&x.wrapping_neg_if(arg!(toconst(if c.0 & 1 == 1 { "1" } else { "0" }))))
+    ))
+}
+
+fn shl_vartime<const N: usize>(a: &[&str]) -> Option<String> {
+    let (x, s) = (arg!(uint::<N>(a[1])), arg!(dec32(a[2])));
+    Some(co(x.overflowing_shl_vartime(s)))
+}
+fn shr_vartime<const N: usize>(a: &[&str]) -> Option<String> {
+    let (x, s) = (arg!(uint::<N>(a[1])), arg!(dec32(a[2])));
+    Some(co(x.overflowing_shr_vartime(s)))
+}
+fn shl<const N: usize>(a: &[&str]) -> Option<String> {
+    let (x, s) = (arg!(uint::<N>(a[1])), arg!(dec32(a[2])));
+    Some(co(x.overflowing_shl(s)))
+}
+fn shr<const N: usize>(a: &[&str]) -> Option<String> {
+    let (x, s) = (arg!(uint::<N>(a[1])), arg!(dec32(a[2])));
+    Some(co(x.overflowing_shr(s)))
+}
+fn shl_limb<const N: usize>(a: &[&str]) -> Option<String> {
+    let (x, s) = (arg!(uint::<N>(a[1])), arg!(dec32(a[2])));
+    let (v, c) = hooks::uint_shl_limb(&x, s);
+    Some(format!("{} {}", uhex(&v), lhex(c)))
+}
+fn shr1<const N: usize>(a: &[&str]) -> Option<String> {
+    let x = arg!(uint::<N>(a[1]));
+    Some(uhex(&hooks::uint_shr1(&x)))
+}
+
+fn bits<const N: usize>(a: &[&str]) -> Option<String> {
+    let (x, i, v) = (arg!(uint::<N>(a[1])), arg!(dec32(a[2])), arg!(tochoice(a[3])));
+    let mut sb = x;
+    BitOps::set_bit(&mut sb, i, v);
+    Some(format!(
+        "{} {} {:x} {:x} {:x} {:x} {:x} {}",
+        cchoice(x.bit(i)),
+        bit(x.bit_vartime(i)),
+        x.leading_zeros(),
+        x.trailing_zeros(),
+        x.trailing_ones(),
+        x.bits(),
+        x.bits_vartime(),
+        uhex(&sb)
+    ))
+}
+
+fn modarith<const N: usize>(a: &[&str]) -> Option<String> {
+    let (x, y, p) = (arg!(uint::<N>(a[1])), arg!(uint::<N>(a[2])), arg!(uint::<N>(a[3])));
+    Some(format!("{} {} {}", uhex(&x.add_mod(&y, &p)), uhex(&x.sub_mod(&y, &p)), uhex(&x.neg_mod(&p))))
+}
+fn sub_mod_with_carry<const N: usize>(a: &[&str]) -> Option<String> {
+    let (x, c, y, p) = (arg!(uint::<N>(a[1])), arg!(dec(a[2])), arg!(uint::<N>(a[3])), arg!(uint::<N>(a[4])));
+    Some(uhex(&hooks::uint_sub_mod_with_carry(&x, Limb(c as Word), &y, &p)))
+}
+
+fn split_mul<const N: usize, const M: usize>(a: &[&str]) -> Option<String> {
+    let (x, y) = (arg!(uint::<N>(a[2])), arg!(uint::<M>(a[3])));
+    let (lo, hi) = x.split_mul(&y);
+    Some(format!("{} {}", uhex(&lo), uhex(&hi)))
+}
+fn square_wide<const N: usize>(a: &[&str]) -> Option<String> {
+    let x = arg!(uint::<N>(a[1]));
+    let (lo, hi) = x.square_wide();
+    Some(format!("{} {}", uhex(&lo), uhex(&hi)))
+}
+fn mul_forms<const N: usize>(a: &[&str]) -> Option<String> {
+    let (x, y) = (arg!(uint::<N>(a[1])), arg!(uint::<N>(a[2])));
+    Some(format!(
+        "{} {} {} {}",
+        uhex(&x.wrapping_mul(&y)),
+        cto(CheckedMul::checked_mul(&x, &y), uhex),
+        uhex(&x.saturating_mul(&y)),
+        co(x.checked_square())
+    ))
+}
+fn concat_split<const N: usize, const W: usize>(a: &[&str]) -> Option<String>
+where
+    Uint<N>: crypto_bigint::Concat<Output = Uint<W>>,
+    Uint<W>: crypto_bigint::Split<Output = Uint<N>>,
+{
+    let (x, y) = (arg!(uint::<N>(a[1])), arg!(uint::<N>(a[2])));
+    let c: Uint<W> = x.concat(&y);
+    let (lo, hi) = c.split();
+    let r: Uint<N> = c.resize();
+    let w: Uint<W> = y.resize();
+    Some(format!("{} {} {} {} {}", uhex(&c), uhex(&lo), uhex(&hi), uhex(&r), uhex(&w)))
+}
+
+fn reciprocal(a: &[&str]) -> Option<String> {
+    Some(hexw(hooks::reciprocal(arg!(word(a[0])))))
+}
+fn div_rem_limb<const N: usize>(a: &[&str]) -> Option<String> {
+    let (x, d) = (arg!(uint::<N>(a[1])), arg!(limb(a[2])));
+    let (q, r) = x.div_rem_limb(arg!(Option::from(NonZero::new(d))));
+    Some(format!("{} {}", uhex(&q), lhex(r)))
+}
+fn div_rem<const N: usize>(a: &[&str]) -> Option<String> {
+    let (x, d) = (arg!(uint::<N>(a[1])), arg!(uint::<N>(a[2])));
+    let (q, r) = x.div_rem(&arg!(Option::from(NonZero::new(d))));
+    Some(format!("{} {}", uhex(&q), uhex(&r)))
+}
+fn sqrt<const N: usize>(a: &[&str]) -> Option<String> {
+    Some(uhex(&arg!(uint::<N>(a[1])).sqrt()))
+}
+fn inv_mod2k<const N: usize>(a: &[&str]) -> Option<String> {
+    let (x, k) = (arg!(uint::<N>(a[1])), arg!(dec32(a[2])));
+    Some(format!("{} {}", co(x.inv_mod2k(k)), co(x.inv_mod2k_vartime(k))))
+}
+
+fn monty<const N: usize>(a: &[&str]) -> Option<String> {
+    let (x, e, m, ebits) = (arg!(uint::<N>(a[1])), arg!(uint::<N>(a[2])), arg!(uint::<N>(a[3])), arg!(dec32(a[4])));
+    let params = MontyParams::new_vartime(arg!(Option::from(Odd::new(m))));
+    let xm = MontyForm::new(&x, params);
+    let em = MontyForm::new(&e, params);
+    Some(format!(
+        "{} {} {}",
+        uhex(&(xm * em).retrieve()),
+        uhex(&xm.pow_bounded_exp(&e, ebits).retrieve()),
+        uhex(&xm.pow(&e).retrieve())
+    ))
+}
+
+fn int_arith<const N: usize>(a: &[&str]) -> Option<String> {
+    let (x, y) = (arg!(int::<N>(a[1])), arg!(int::<N>(a[2])));
+    let (abs, sign) = x.abs_sign();
+    let neg = if y.as_uint().as_words()[0] & 1 == 1 { "1" } else { "0" };
+    Some(format!(
+        "{} {} {} {} {} {} {} {} {} {}",
+        uhex(&abs),
+        cchoice(sign),
+        coi(x.checked_add(&y)),
+        cto(CheckedSub::checked_sub(&x, &y), ihex),
+        coi(x.checked_neg()),
+        ihex(&x.wrapping_neg()),
+        choice(x.ct_lt(&y)),
+        choice(x.ct_gt(&y)),
+        ord(Ord::cmp(&x, &y)),
+        coi(Int::new_from_abs_sign(*x.as_uint(), arg!(toconst(neg))))
+    ))
+}
+fn int_mul<const N: usize, const W: usize>(a: &[&str]) -> Option<String>
+where
+    Uint<N>: crypto_bigint::ConcatMixed<Uint<N>, MixedOutput = Uint<W>>,
+{
+    let (x, y) = (arg!(int::<N>(a[2])), arg!(int::<N>(a[3])));
+    let w: Int<W> = x.widening_mul(&y);
+    Some(format!(
+        "{} {} {}",
+        cto(CheckedMul::checked_mul(&x, &y), ihex),
+        cto(CheckedMul::checked_mul(&x, y.as_uint()), ihex),
+        ihex(&w)
+    ))
+}
+fn int_shr<const N: usize>(a: &[&str]) -> Option<String> {
+    let (x, s) = (arg!(int::<N>(a[1])), arg!(dec32(a[2])));
+    Some(format!("{} {} {}", coi(x.overflowing_shr(s)), ihex(&x.wrapping_shr(s)), coi(x.overflowing_shr_vartime(s))))
+}
+fn int_div<const N: usize>(a: &[&str]) -> Option<String> {
+    let (x, d) = (arg!(int::<N>(a[1])), arg!(int::<N>(a[2])));
+    let d: NonZero<Int<N>> = arg!(Option::from(NonZero::new(d)));
+    let (q, r) = x.checked_div_rem(&d);
+    let (fq, fr) = x.checked_div_rem_floor(&d);
+    Some(format!("{} {} {} {}", coi(q), ihex(&r), coi(fq), ihex(&fr)))
+}
+fn int_checked_div<const N: usize>(a: &[&str]) -> Option<String> {
+    let (x, d) = (arg!(int::<N>(a[1])), arg!(int::<N>(a[2])));
+    Some(cto(x.checked_div(&d), ihex))
+}
+fn int_div_uint<const N: usize>(a: &[&str]) -> Option<String> {
+    let (x, d) = (arg!(int::<N>(a[1])), arg!(uint::<N>(a[2])));
+    let d: NonZero<Uint<N>> = arg!(Option::from(NonZero::new(d)));
+    let (q, r) = x.div_rem_uint(&d);
+    let (fq, fr) = x.div_rem_floor_uint(&d);
+    Some(format!("{} {} {} {}", ihex(&q), ihex(&r), ihex(&fq), uhex(&fr)))
+}
+
+fn boxed_addsub(a: &[&str]) -> Option<String> {
+    let (na, nb) = (arg!(dec(a[0])), arg!(dec(a[2])));
+    let (x, y, c) = (arg!(boxed(a[1], na)), arg!(boxed(a[3], nb)), arg!(limb(a[4])));
+    let (s, cy) = x.adc(&y, c);
+    let (d, bw) = x.sbb(&y, c);
+    Some(format!(
+        "{} {} {} {} {} {} {} {}",
+        bhexlen(&s),
+        lhex(cy),
+        bhexlen(&d),
+        lhex(bw),
+        choice(x.ct_eq(&y)),
+        choice(x.ct_lt(&y)),
+        choice(x.ct_gt(&y)),
+        ord(Ord::cmp(&x, &y))
+    ))
+}
+fn boxed_assign(a: &[&str]) -> Option<String> {
+    let (na, nb) = (arg!(dec(a[0])), arg!(dec(a[2])));
+    let (x, y, c, ch) = (arg!(boxed(a[1], na)), arg!(boxed(a[3], nb)), arg!(limb(a[4])), arg!(tochoice(a[5])));
+    let mut s = x.clone();
+    let cy = s.adc_assign(&y, c);
+    let mut d = x.clone();
+    let bw = d.sbb_assign(&y, c);
+    let mut cn = x.clone();
+    cn.conditional_negate(ch);
+    Some(format!(
+        "{} {} {} {} {} {} {} {}",
+        bhexlen(&s),
+        lhex(cy),
+        bhexlen(&d),
+        lhex(bw),
+        bhexlen(&cn),
+        bhexlen(&x.wrapping_neg()),
+        choice(x.is_zero()),
+        bhexlen(&hooks::boxed_shr1(&x))
+    ))
+}
+fn boxed_ct(a: &[&str]) -> Option<String> {
+    let n = arg!(dec(a[0]));
+    let (x, y, c) = (arg!(boxed(a[1], n)), arg!(boxed(a[2], n)), arg!(tochoice(a[3])));
+    let mut asg = x.clone();
+    asg.ct_assign(&y, c);
+    let (mut s1, mut s2) = (x.clone(), y.clone());
+    BoxedUint::ct_swap(&mut s1, &mut s2, c);
+    Some(format!("{} {} {} {}", bhexlen(&BoxedUint::ct_select(&x, &y, c)), bhexlen(&asg), bhexlen(&s1), bhexlen(&s2)))
+}
+fn boxed_mul(a: &[&str]) -> Option<String> {
+    let (na, nb) = (arg!(dec(a[0])), arg!(dec(a[2])));
+    let (x, y) = (arg!(boxed(a[1], na)), arg!(boxed(a[3], nb)));
+    Some(format!(
+        "{} {} {}",
+        bhexlen(&x.mul(&y)),
+        bhexlen(&x.wrapping_mul(&y)),
+        cto(CheckedMul::checked_mul(&x, &y), bhexlen)
+    ))
+}
+fn boxed_square(a: &[&str]) -> Option<String> {
+    let n = arg!(dec(a[0]));
+    Some(bhexlen(&arg!(boxed(a[1], n)).square()))
+}
+fn boxed_shift(a: &[&str]) -> Option<String> {
+    let n = arg!(dec(a[0]));
+    let (x, s) = (arg!(boxed(a[1], n)), arg!(dec32(a[2])));
+    let (l, lo) = x.overflowing_shl(s);
+    let (r, ro) = x.overflowing_shr(s);
+    // the model returns `is_some` for the left shift (as the fixed-size form) and `overflow` for the right shift (as written)
+    Some(format!(
+        "{} {} {} {} {}",
+        bhexlen(&l),
+        choice(!lo),
+        bhexlen(&r),
+        choice(ro),
+        x.shr_vartime(s).map(|v| bhexlen(&v)).unwrap_or("none".into())
+    ))
+}
+fn boxed_modarith(a: &[&str]) -> Option<String> {
+    let n = arg!(dec(a[0]));
+    let (x, y, p) = (arg!(boxed(a[1], n)), arg!(boxed(a[2], n)), arg!(boxed(a[3], n)));
+    Some(format!("{} {} {}", bhexlen(&x.add_mod(&y, &p)), bhexlen(&x.sub_mod(&y, &p)), bhexlen(&x.neg_mod(&p))))
+}
+fn boxed_bits(a: &[&str]) -> Option<String> {
+    let n = arg!(dec(a[0]));
+    let (x, i, v) = (arg!(boxed(a[1], n)), arg!(dec32(a[2])), arg!(tochoice(a[3])));
+    let mut sb = x.clone();
+    BitOps::set_bit(&mut sb, i, v);
+    Some(format!(
+        "{} {:x} {:x} {:x} {:x} {}",
+        choice(x.bit(i)),
+        x.leading_zeros(),
+        x.trailing_zeros(),
+        x.trailing_ones(),
+        x.bits(),
+        bhexlen(&sb)
+    ))
+}
+fn boxed_inv_mod2k(a: &[&str]) -> Option<String> {
+    let n = arg!(dec(a[0]));
+    let (x, k) = (arg!(boxed(a[1], n)), arg!(dec32(a[2])));
+    let (r, rs) = x.inv_mod2k(k);
+    let (v, vs) = x.inv_mod2k_vartime(k);
+    Some(format!("{} {} {} {}", bhexlen(&r), choice(rs), bhexlen(&v), choice(vs)))
+}
+
+pub fn dispatch(op: &str, a: &[&str]) -> Option<String> {
+    let name = op.strip_prefix("c01.leak.")?;
+    let n = || a.first().and_then(|s| dec(s));
+    let need = |k: usize| a.len() == k;
+    macro_rules! chk {
+        ($k:expr) => {
+            if !need($k) {
+                return Some(BAD.to_string());
+            }
+        };
+    }
+    match name {
+        "limb" => { chk!(4); limb_op(a) }
+        "ucmp" => { chk!(4); with_w!(arg!(n()), ucmp, a) }
+        "cmp_vartime" => { chk!(3); with_w!(arg!(n()), cmp_vartime, a) }
+        "addsub" => { chk!(4); with_w!(arg!(n()), addsub, a) }
+        "shl_vartime" => { chk!(3); with_w!(arg!(n()), shl_vartime, a) }
+        "shr_vartime" => { chk!(3); with_w!(arg!(n()), shr_vartime, a) }
+        "shl" => { chk!(3); with_w!(arg!(n()), shl, a) }
+        "shr" => { chk!(3); with_w!(arg!(n()), shr, a) }
+        "shl_limb" => { chk!(3); with_w!(arg!(n()), shl_limb, a) }
+        "shr1" => { chk!(2); with_w!(arg!(n()), shr1, a) }
+        "bits" => { chk!(4); with_w!(arg!(n()), bits, a) }
+        "modarith" => { chk!(4); with_w!(arg!(n()), modarith, a) }
+        "sub_mod_with_carry" => { chk!(5); with_w!(arg!(n()), sub_mod_with_carry, a) }
+        "split_mul" => {
+            chk!(4);
+            match (arg!(n()), arg!(dec(a[1]))) {
+                (1, 1) => split_mul::<1, 1>(a),
+                (2, 2) => split_mul::<2, 2>(a),
+                (3, 3) => split_mul::<3, 3>(a),
+                (4, 4) => split_mul::<4, 4>(a),
+                (6, 6) => split_mul::<6, 6>(a),
+                (8, 8) => split_mul::<8, 8>(a),
+                (16, 16) => split_mul::<16, 16>(a),
+                (32, 32) => split_mul::<32, 32>(a),
+                (64, 64) => split_mul::<64, 64>(a),
+                (1, 2) => split_mul::<1, 2>(a),
+                (2, 1) => split_mul::<2, 1>(a),
+                (3, 5) => split_mul::<3, 5>(a),
+                (4, 2) => split_mul::<4, 2>(a),
+                (16, 8) => split_mul::<16, 8>(a),
+                (8, 16) => split_mul::<8, 16>(a),
+                (16, 32) => split_mul::<16, 32>(a),
+                (17, 17) => split_mul::<17, 17>(a),
+                _ => Some("unsupported-width".to_string()),
+            }
+        }
+        "square_wide" => {
+            chk!(2);
+            match arg!(n()) {
+                64 => square_wide::<64>(a),
+                128 => square_wide::<128>(a),
+                k => with_w!(k, square_wide, a),
+            }
+        }
+        "mul_forms" => { chk!(3); with_w!(arg!(n()), mul_forms, a) }
+        "concat_split" => {
+            chk!(3);
+            match arg!(n()) {
+                1 => concat_split::<1, 2>(a),
+                2 => concat_split::<2, 4>(a),
+                3 => concat_split::<3, 6>(a),
+                4 => concat_split::<4, 8>(a),
+                6 => concat_split::<6, 12>(a),
+                8 => concat_split::<8, 16>(a),
+                16 => concat_split::<16, 32>(a),
+                _ => Some("unsupported-width".to_string()),
+            }
+        }
+        "reciprocal" => { chk!(1); reciprocal(a) }
+        "div_rem_limb" => { chk!(3); with_w!(arg!(n()), div_rem_limb, a) }
+        "div_rem" => { chk!(3); with_w!(arg!(n()), div_rem, a) }
+        "sqrt" => { chk!(2); with_w!(arg!(n()), sqrt, a) }
+        "inv_mod2k" => { chk!(3); with_small!(arg!(n()), inv_mod2k, a) }
+        "monty" => { chk!(5); with_small!(arg!(n()), monty, a) }
+        "int_arith" => { chk!(3); with_w!(arg!(n()), int_arith, a) }
+        "int_mul" => {
+            chk!(4);
+            match (arg!(n()), arg!(dec(a[1]))) {
+                (1, 1) => int_mul::<1, 2>(a),
+                (2, 2) => int_mul::<2, 4>(a),
+                (3, 3) => int_mul::<3, 6>(a),
+                (4, 4) => int_mul::<4, 8>(a),
+                (6, 6) => int_mul::<6, 12>(a),
+                (8, 8) => int_mul::<8, 16>(a),
+                (16, 16) => int_mul::<16, 32>(a),
+                _ => Some("unsupported-width".to_string()),
+            }
+        }
+        "int_shr" => { chk!(3); with_w!(arg!(n()), int_shr, a) }
+        "int_div" => { chk!(3); with_small!(arg!(n()), int_div, a) }
+        "int_checked_div" => { chk!(3); with_small!(arg!(n()), int_checked_div, a) }
+        "int_div_uint" => { chk!(3); with_small!(arg!(n()), int_div_uint, a) }
+        "boxed_addsub" => { chk!(5); boxed_addsub(a) }
+        "boxed_assign" => { chk!(6); boxed_assign(a) }
+        "boxed_ct" => { chk!(4); boxed_ct(a) }
+        "boxed_mul" => { chk!(4); boxed_mul(a) }
+        "boxed_square" => { chk!(2); boxed_square(a) }
+        "boxed_shift" => { chk!(3); boxed_shift(a) }
+        "boxed_modarith" => { chk!(4); boxed_modarith(a) }
+        "boxed_bits" => { chk!(4); boxed_bits(a) }
+        "boxed_inv_mod2k" => { chk!(3); boxed_inv_mod2k(a) }
+        _ => None,
+    }
 }
